@@ -600,3 +600,47 @@ func (e *Exec) isZeroVal(v Value) *Term {
 	}
 	return tb.ff
 }
+
+// appendBytes implements append(a, b...) for byte slices with Go's aliasing rule: when the result fits
+// into a's capacity it is written in place into a's backing array (visible through every other slice
+// of that array), otherwise a fresh array is allocated.
+func (e *Exec) appendBytes(a, b *SliceV) *SliceV {
+	tb := e.tb
+	if a.blob != nil || b.blob != nil {
+		e.fail("append on an encoded blob")
+	}
+	if a.a == nil || a.gocap == a.len {
+		// capacity == length: any non-empty append reallocates
+		return e.concatBytes(a, b, false)
+	}
+	fits := tb.Ule(tb.Add(a.len, b.len), a.gocap)
+	if !e.branch(fits) {
+		return e.concatBytes(a, b, false)
+	}
+	la := e.concretize(a.len, e.reprCapFull(a), "append destination length")
+	nb := e.reprCap(b)
+	if a.off+la+nb > len(a.a.b) {
+		// the representation of the backing array is shorter than what may be written
+		if e.branch(tb.Not(tb.Ule(b.len, tb.BV(int64(len(a.a.b)-a.off-la), 64)))) {
+			e.fail("append in place beyond the represented backing array")
+		}
+		nb = len(a.a.b) - a.off - la
+	}
+	if nb > 0 && a.a.global {
+		e.noteGlobalWrite("append into the backing array of a package-level slice")
+	}
+	src := make([]*Term, nb)
+	for i := 0; i < nb; i++ {
+		src[i] = e.byteAt(b, i)
+	}
+	for i := 0; i < nb; i++ {
+		old := a.a.b[a.off+la+i]
+		if i < b.minLen {
+			a.a.b[a.off+la+i] = src[i]
+		} else {
+			a.a.b[a.off+la+i] = tb.Ite(tb.Ult(tb.BV(int64(i), 64), b.len), src[i], old)
+		}
+	}
+	l := tb.Add(tb.BV(int64(la), 64), b.len)
+	return (&SliceV{a: a.a, off: a.off, len: l, gocap: a.gocap, isNil: tb.ff, minLen: la + b.minLen}).withMax(la + nb)
+}
